@@ -105,6 +105,34 @@ def run_c19(tier):
             if b != checked:
                 v.disagree("fixpoint", {"variant": label, "args": args}, {"what": "regeneration from this checkout differs from the checked-in file",
                                                                           "size": [len(checked), len(b)]})
+    # ... over a STALE wiring file: the checked-in file was edited by hand (or comes from an older generator) and is younger than
+    # every configuration file; regenerating in place must still bring back exactly what the YAML declares (C19-r7-m1 skipped
+    # generation when the output was newer than its inputs).  Also the other way round (configuration files younger).
+    if not v.violations:
+        import glob as _glob
+        import subprocess
+        for label, yaml_age in (("stale-output-younger-than-yaml", -7200), ("stale-output-older-than-yaml", 7200)):
+            st = os.path.join(wd, label)
+            shutil.copytree(core.REPO, st, ignore=shutil.ignore_patterns(".git"))
+            target = os.path.join(st, "internal/gontainer/gontainer.go")
+            src = open(target, "rb").read()
+            with open(target, "wb") as f:
+                f.write(src.replace(b"SetScope", b"SetScoop", 1) + b"\n// edited by hand\n")
+            now = time.time()
+            os.utime(target, (now, now))
+            for y in _glob.glob(os.path.join(st, "internal/gontainer/*.yaml")):
+                os.utime(y, (now + yaml_age, now + yaml_age))
+            p = subprocess.run([os.path.join(wd, "tool0"), "build"] + YAML_ARGS + ["-o", "internal/gontainer/gontainer.go", "-q"], cwd=st,
+                               stdout=subprocess.PIPE, stderr=subprocess.STDOUT, timeout=300)
+            variants[label] = p.returncode
+            if p.returncode != 0:
+                v.disagree("regeneration-fails", {"variant": label}, {"rc": p.returncode, "out": p.stdout.decode("utf8", "replace")[-500:]})
+                continue
+            b = strip_version(open(target, "rb").read())
+            variants[label] = name(b)
+            if b != checked:
+                v.disagree("fixpoint", {"variant": label}, {"what": "regenerating over a hand-edited wiring file does not restore what the YAML declares",
+                                                            "size": [len(checked), len(b)]})
     # ... and from a process that hardly gets the CPU (suspended for 1.2 s after every 4 ms of running, so that every step of some length is interrupted): what is written must not depend on how long a step takes
     if not v.violations:
         import signal
